@@ -51,6 +51,11 @@ type irGen struct {
 	topLabels []string
 	inFunc    bool
 	noLabels  bool
+	// C16-only extras
+	closureLabels bool // closures may define labels of their own
+	allowInline   bool // inline closure calls
+	noDupLabels   bool
+	noReturn      bool // inside an inline closure body
 }
 
 func (g *irGen) list(d, n int, inLoop, inBreakable bool) []*irStmt {
@@ -64,7 +69,7 @@ func (g *irGen) list(d, n int, inLoop, inBreakable bool) []*irStmt {
 var irVarCounter int
 
 func (g *irGen) simple() *irStmt {
-	ks := []string{"assign", "inc", "send", "call", "go", "defer", "define", "empty", "assign", "call"}
+	ks := []string{"assign", "inc", "send", "call", "go", "defer", "define", "empty", "assign", "call", "constexpr"}
 	s := &irStmt{K: ks[g.r.Intn(len(ks))]}
 	if s.K == "define" {
 		irVarCounter++
@@ -79,7 +84,7 @@ func (g *irGen) stmt(d int, inLoop, inBreakable bool) *irStmt {
 		switch x := r.Intn(10); {
 		case x < 5:
 			return g.simple()
-		case x < 7:
+		case x < 7 && !g.noReturn:
 			return &irStmt{K: "return", Ret: true}
 		case x < 8:
 			return &irStmt{K: "panic"}
@@ -96,7 +101,7 @@ func (g *irGen) stmt(d int, inLoop, inBreakable bool) *irStmt {
 	switch x := r.Intn(100); {
 	case x < 14:
 		return g.simple()
-	case x < 22:
+	case x < 22 && !g.noReturn:
 		return &irStmt{K: "return", Ret: true}
 	case x < 27:
 		return &irStmt{K: "panic"}
@@ -188,9 +193,15 @@ func (g *irGen) stmt(d int, inLoop, inBreakable bool) *irStmt {
 		return &irStmt{K: "labeled", Label: lbl, Body: []*irStmt{g.stmt(d-1, inLoop, inBreakable)}}
 	case x < 97:
 		// closure call statement: its own function context
-		sub := &irGen{r: r, maxDepth: d - 1, noLabels: true}
+		if g.allowInline && r.Intn(2) == 0 {
+			sub := &irGen{r: r, maxDepth: d - 1, noLabels: true, noReturn: true, allowInline: true}
+			return &irStmt{K: "inline", Body: sub.list(d-1, 1+n(), false, false)}
+		}
+		sub := &irGen{r: r, maxDepth: d - 1, noLabels: !g.closureLabels, closureLabels: g.closureLabels, allowInline: g.allowInline, noDupLabels: g.noDupLabels, labels: g.labels}
 		res := r.Intn(2)
-		return &irStmt{K: "closure", Results: res, Body: sub.list(d-1, 1+n(), false, false)}
+		st := &irStmt{K: "closure", Results: res, Body: sub.list(d-1, 1+n(), false, false)}
+		g.labels = sub.labels
+		return st
 	default:
 		return &irStmt{K: "empty"}
 	}
@@ -199,7 +210,7 @@ func (g *irGen) stmt(d int, inLoop, inBreakable bool) *irStmt {
 func (g *irGen) newLabel() string {
 	g.labels++
 	// occasionally reuse a name: "defined twice"
-	if g.labels > 1 && g.r.Intn(25) == 0 {
+	if g.labels > 1 && !g.noDupLabels && g.r.Intn(25) == 0 {
 		return fmt.Sprintf("L%d", g.r.Intn(g.labels-1)+1)
 	}
 	return fmt.Sprintf("L%d", g.labels)
@@ -247,7 +258,11 @@ func (g *irGen) branch(k string) *irStmt {
 }
 
 func genIRFunc(r *rand.Rand, name string, depth int) *irFunc {
-	g := &irGen{r: r, maxDepth: depth}
+	return genIRFuncWith(&irGen{r: r, maxDepth: depth}, name, depth)
+}
+
+func genIRFuncWith(g *irGen, name string, depth int) *irFunc {
+	r := g.r
 	f := &irFunc{Name: name, Results: r.Intn(4) / 3 * 0, ShadowPanic: r.Intn(6) == 0}
 	if r.Intn(5) != 0 {
 		f.Results = 1
@@ -290,8 +305,15 @@ func (s *irStmt) src(b *strings.Builder, ind string, fn *irFunc) {
 		w("defer f()")
 	case "define":
 		w("var %s int = x", s.Name)
-	case "empty":
+	case "empty", "constexpr":
 		w(";")
+	case "inline":
+		w("x = func(a int) int {")
+		for _, x := range s.Body {
+			x.src(b, ind+"\t", &irFunc{Results: 1})
+		}
+		w("\treturn a")
+		w("}(x)")
 	case "panic":
 		w("panic(\"x\")")
 	case "return":
@@ -429,8 +451,10 @@ func (s *irStmt) c10(tracked bool) string {
 		return "SOther"
 	case "call", "closure":
 		return "(SExpr false)"
-	case "empty":
+	case "empty", "constexpr":
 		return "SEmpty"
+	case "inline":
+		return "SOther"
 	case "panic":
 		return "(SExpr " + coqBool(tracked) + ")"
 	case "return":
@@ -491,7 +515,7 @@ func labelEvents(l []*irStmt, defs, uses *[]string) {
 			if s.Label != "" {
 				*uses = append(*uses, s.Label)
 			}
-		case "closure":
+		case "closure", "inline":
 			continue
 		}
 		labelEvents(s.Body, defs, uses)
@@ -507,16 +531,17 @@ func labelEvents(l []*irStmt, defs, uses *[]string) {
 // ---------- real builder ----------
 
 type irBuild struct {
-	pkg     *gogen.Package
-	cb      *gogen.CodeBuilder
-	errs    []string
-	labels  map[string]*gogen.Label
-	placed  map[string]bool
-	after   func(op string) // observation hook (C16)
-	balance func(kind string, ok bool)
-	fn      *irFunc
-	panicV  types.Object
-	nvar    int
+	pkg        *gogen.Package
+	cb         *gogen.CodeBuilder
+	errs       []string
+	labels     map[string]*gogen.Label
+	placed     map[string]bool
+	after      func(op string) // observation hook (C16)
+	balance    func(kind string, ok bool)
+	labelNames []string
+	fn         *irFunc
+	panicV     types.Object
+	nvar       int
 }
 
 var irImporter types.Importer
@@ -527,6 +552,17 @@ func (b *irBuild) ref(name string) types.Object {
 		panic("irBuild: no object " + name)
 	}
 	return o
+}
+
+// visibleLabels: how many of the case's label names LookupLabel finds (the label context)
+func (b *irBuild) visibleLabels() int {
+	n := 0
+	for _, name := range b.labelNames {
+		if _, ok := b.cb.LookupLabel(name); ok {
+			n++
+		}
+	}
+	return n
 }
 
 func (b *irBuild) op(name string) {
@@ -576,6 +612,7 @@ func (b *irBuild) buildFunc(f *irFunc) {
 		if l != nil {
 			b.labels[d] = l
 		}
+		b.op("NewLabel")
 	}
 	b.list(f.Body, f)
 	cb.End()
@@ -599,12 +636,12 @@ func (b *irBuild) cond() {
 
 func (b *irBuild) stmt(s *irStmt, fn *irFunc) {
 	if b.balance != nil {
-		l0, sc0, f0 := b.cb.InternalStack().Len(), b.cb.Scope(), b.cb.Func()
+		l0, sc0, f0, n0 := b.cb.InternalStack().Len(), b.cb.Scope(), b.cb.Func(), b.visibleLabels()
 		defer func() {
 			if e := recover(); e != nil {
 				panic(e)
 			}
-			b.balance(s.K, l0 == b.cb.InternalStack().Len() && sc0 == b.cb.Scope() && f0 == b.cb.Func())
+			b.balance(s.K, l0 == b.cb.InternalStack().Len() && sc0 == b.cb.Scope() && f0 == b.cb.Func() && n0 == b.visibleLabels())
 		}()
 	}
 	b.stmt1(s, fn)
@@ -660,6 +697,37 @@ func (b *irBuild) stmt1(s *irStmt, fn *irFunc) {
 		b.op("Val")
 		cb.EndInit(1)
 		b.op("EndInit1")
+	case "constexpr": // a constant-valued expression statement: evaluated, nothing emitted
+		cb.Val("a")
+		b.op("Val")
+		cb.Val("b")
+		b.op("Val")
+		cb.BinaryOp(token.ADD)
+		b.op("BinaryOp")
+		cb.EndStmt()
+		b.op("EndStmt")
+	case "inline":
+		tyInt := types.Typ[types.Int]
+		pa := types.NewParam(token.NoPos, b.pkg.Types, "a", tyInt)
+		sig := types.NewSignatureType(nil, nil, nil, types.NewTuple(pa), types.NewTuple(types.NewParam(token.NoPos, b.pkg.Types, "", tyInt)), false)
+		cb.VarRef(b.ref("x"))
+		b.op("VarRef")
+		cb.Val(b.ref("x"))
+		b.op("Val")
+		cb.CallInlineClosureStart(sig, 1, false)
+		b.op("InlineStart")
+		saveL, saveP := b.labels, b.placed
+		b.labels, b.placed = map[string]*gogen.Label{}, map[string]bool{}
+		b.list(s.Body, &irFunc{Results: 1})
+		b.labels, b.placed = saveL, saveP
+		cb.Val(pa)
+		b.op("Val")
+		cb.Return(1)
+		b.op("Return1")
+		cb.End()
+		b.op("InlineEnd")
+		cb.Assign(1)
+		b.op("Assign1")
 	case "empty":
 		// the builder has no empty-statement operation; nothing is emitted
 	case "panic":
@@ -864,6 +932,14 @@ func (b *irBuild) stmt1(s *irStmt, fn *irFunc) {
 		sub := &irFunc{Results: s.Results}
 		saveL, saveP := b.labels, b.placed
 		b.labels, b.placed = map[string]*gogen.Label{}, map[string]bool{}
+		var cdefs, cuses []string
+		labelEvents(s.Body, &cdefs, &cuses)
+		for _, d := range cdefs {
+			if l := cb.NewLabel(token.NoPos, token.NoPos, d); l != nil {
+				b.labels[d] = l
+			}
+			b.op("NewLabel")
+		}
 		b.list(s.Body, sub)
 		b.labels, b.placed = saveL, saveP
 		cb.End()
@@ -911,6 +987,10 @@ func (s *irStmt) c16(placed map[string]bool, rv bool) string {
 		return "CEmpty"
 	case "panic":
 		return "CPanic"
+	case "constexpr":
+		return "CConstExpr"
+	case "inline":
+		return "(CInline " + c16List(s.Body, nil, true) + ")"
 	case "return":
 		return "(CReturn " + coqBool(rv) + ")"
 	case "break", "continue", "goto", "fallthrough":
@@ -956,7 +1036,9 @@ func (s *irStmt) c16(placed map[string]bool, rv bool) string {
 		}
 		return "(CSelect " + cs + ")"
 	case "closure":
-		return "(CClosure " + c16List(s.Body, nil, s.Results > 0) + ")"
+		var cdefs, cuses []string
+		labelEvents(s.Body, &cdefs, &cuses)
+		return fmt.Sprintf("(CClosure %d %s)", len(cdefs), c16List(s.Body, map[string]bool{}, s.Results > 0))
 	}
 	panic("c16: " + s.K)
 }
@@ -966,6 +1048,7 @@ var c16OpCode = map[string]string{
 	"BinaryOp": "OBinary", "UnaryOp": "OUnary", "Call0": "(OCall 0)", "Call1": "(OCall 1)",
 	"Assign1": "(OStmt 2)", "IncDec": "(OStmt 1)", "Send": "(OStmt 2)", "Go": "(OStmt 1)", "Defer": "(OStmt 1)",
 	"Return1": "(OStmt 1)", "Return0": "(OStmt 0)", "EndInit1": "(OStmt 1)", "EndStmt": "OEndStmt",
+	"NewLabel": "ONewLabel", "InlineStart": "(OInlineStart 1)", "InlineEnd": "(OInlineEnd 1)",
 	"InitStart": "ONop", "Label": "ONop", "Branch": "ONop", "NewFunc": "ONop", "NewClosure": "ONop",
 	"Open:block": "OOpen", "Open:if": "OOpen", "Open:for": "OOpen", "Open:range": "OOpen", "Open:switch": "OOpen",
 	"Open:case": "OOpen", "Open:tswitch": "OOpen", "Open:tcase": "OOpen", "Open:select": "OOpen", "Open:comm": "OOpen",
